@@ -109,8 +109,17 @@ class PROP(Prop):
                 cs.append(Case("ASYNC " + body, {"g": gid, "mode": "async", "nops": len(ops), "model_line": "ASYNC " + mbody}))
         return cs
 
+    @staticmethod
+    def norm(case, s):
+        s = (s or "").replace("ok t=max", "ok t=-")
+        if " rtu " in case.line[:12]:
+            # a pseudo-terminal whose other end was closed answers a read with EIO (io::ErrorKind::Uncategorized) or with end of file
+            # (which the client reports as BrokenPipe), depending on when the close is noticed: both mean "the peer hung up"
+            s = s.replace("T:Uncategorized", "T:BrokenPipe")
+        return s
+
     def project(self, case, s):
-        return (s or "").replace("ok t=max", "ok t=-")
+        return self.norm(case, s)
 
     def extra_checks(self, cases, tier, rng):
         by = {}
@@ -118,7 +127,7 @@ class PROP(Prop):
             by.setdefault(c.meta["g"], {})[c.meta["mode"]] = c
         out = []
         for g, d in by.items():
-            if "sync" in d and "async" in d and d["sync"].impl != d["async"].impl:
+            if "sync" in d and "async" in d and self.norm(d["sync"], d["sync"].impl) != self.norm(d["async"], d["async"].impl):
                 out.append((d["sync"], "synchronous and asynchronous client differ: sync=%s | async=%s" % ((d["sync"].impl or "")[:150], (d["async"].impl or "")[:150])))
         return out
 
